@@ -21,7 +21,8 @@ CLAIMED = {
             'under the deterministic runtime) and results, capacity and the set of '
             'blocked threads are compared with the model.',
             'bounded constants (tokens per tag <= 3/4); CPython FIFO condition '
-            'notification; TLC, the cooperative runtime'),
+            'notification; TLC, the cooperative runtime; permits at quiescence of '
+            'end-to-end runs via ObsTrace'),
     'C17': ('5/C17',
             'TLC model checking of Coordinator.tla, exhaustive spec->code '
             'replay of operation sequences, TLC trace validation of threaded runs',
@@ -47,6 +48,56 @@ CLAIMED['C16'] = ('5/C16',
     'returns are compared with the model.',
     'bounded geometry (object <= 8 positions, <= 3 parts, <= 3 attempts); '
     'request_writes atomic under _io_submit_lock')
+
+
+_E2E_NOTE = ('bounded scenario sizes (objects <= 13 positions, <= 4 transfers); schedules '
+             'explored by seeded random/PCT priorities and one-deviation systematic '
+             'search, not exhaustively; the cooperative runtime switches threads only at '
+             'scheduling points; fake S3 transport behind a real botocore client')
+_E2E_TECH = ('TLC trace validation (ObsTrace.tla over Obs.tla/Props.tla) of executions of the '
+             'real TransferManager recorded under a deterministic scheduler with fault, '
+             'cancel and schedule sweeps')
+
+
+def _e2e(pid, what):
+    CLAIMED[pid] = ('5/' + pid, _E2E_TECH,
+                    'Every recorded execution of the real code is replayed by TLC event by '
+                    'event into the observable-state specification Obs.tla and every clause '
+                    'of the property in Props.tla is evaluated in every state of the trace. '
+                    + what, _E2E_NOTE)
+
+
+_e2e('C01', 'Families: all source kinds x sizes around k*chunk and the threshold x schedules, '
+            'client-level retries that rewind the real body, flexible checksums, limits 1-2.')
+_e2e('C02', 'Families: all destination kinds x sizes x schedules, stream-fault sweeps (kind, '
+            'byte position, attempt, short reads, exhausted budget, non-retryable), limits.')
+_e2e('C03', 'Families: a fault at every S3 call (before/after effect), every source read, '
+            'destination open/write/close/rename and on_queued/on_progress callback, stream '
+            'fault budgets; hangs after a fault count as not reported.')
+_e2e('C04', 'Deadlock/livelock detection by the runtime over limits in {1,2}, cancel sweeps, '
+            'single faults, re-entrant subscribers, mixed transfers and systematic '
+            'one-deviation schedules.')
+_e2e('C05', 'Families: multipart uploads/copies x fault at every call (before/after effect) x '
+            'source/callback faults x cancel at every step; the oracle is the fake '
+            "service's own begin/end log per upload id.")
+_e2e('C06', 'The destination directory is classified at every scheduling point (crash points) '
+            'and at result(); faults in open/write/close/rename/requests/streams, failing '
+            'cleanups, cancel sweeps.')
+_e2e('C07', 'A cancel at every scheduling step for every transfer mode and the entry points '
+            'future.cancel, shutdown(cancel=True), with-block exit by exception/Ctrl-C, '
+            'Ctrl-C inside result(); C05/C06 clauses are evaluated for cleanliness.')
+_e2e('C08', 'Two recording subscribers per transfer (one raising in on_done), outcome probed '
+            'inside on_done, schedules, fault and cancel sweeps incl. the double announce '
+            '(cancel racing the submission thread), provided sizes.')
+_e2e('C09', 'Running progress sums per subscriber for all modes, client-level body rewinds, '
+            'stream retries, flexible checksums, size geometries.')
+_e2e('C10', 'In-flight request/head counters, write overlap, stage occupancy and request '
+            'threads at every event for limits in {1,2} and 2-3 mixed concurrent transfers.')
+_e2e('C11', 'Byte counters of buffered upload data, the sliding download window and IO queue '
+            'occupancy at every event for in-memory limits in {1,2}, mixed stream transfers.')
+_e2e('C18', 'Mixes of 2-3 transfers with per-transfer faults/cancels followed by a fresh '
+            'transfer or by shutdown without waiting; nothing may happen after shutdown '
+            'returns; fault-free neighbours must succeed with their own C01-C03 clauses.')
 
 REASON_TODO = 'check not built yet (build in progress)'
 
